@@ -8,7 +8,8 @@ QUICK_ALSO = {
     "C02": ["c01_rename_same_shard", "c01_rename_same_name_present", "c06_expire_any_duration"],
     "C18": ["c08_flushdb_watch"],
     "C11": ["c20_rt_bulk"],
-    "C01": ["c08_flushdb_watch", "c04_zadd_atomic"],
+    "C01": ["c08_flushdb_watch", "c04_zadd_atomic", "c06_engine_arith_overflow", "c06_reservation_bounded"],
+    "C03": ["c06_engine_arith_overflow"],
     "C13": ["c11_wakeup_pop_logged"],
     "C10": ["c09_lencodec_u32", "c09_strcodec_0to3"],
     "C07": ["c18_db_arg_exec"],
